@@ -220,6 +220,54 @@ def append_sites(ctx, b, o):
     return out
 
 
+PATCHERS = ("MemoryWriter::set_value", "MemoryArrayWriter::set_value_at", "Buffer::write_at")
+
+
+def rule_no_write_below_watermark(ctx, R="C09/flushed-bytes-immutable"):
+    """write_to_file sends only the bytes behind the flush watermark, so a byte of the image that was already flushed must never be
+    written again (the destination would keep the old value while the returned image has the new one).  (a) in generate_dump no
+    in-place writer (set_value / set_value_at / write_at) is reachable after a write_to_file call; (b) no in-place writer handle
+    survives in the writer's or dumper's state, so a later section writer cannot reach back either; the one exception is the
+    directory slot, which dump_dir_entry writes to the image AND to the destination (C09/slot-image-agree)."""
+    from rules.c01 import GEN
+    b = ctx.body(R, GEN)
+    if b is None:
+        return
+    flushes = [bi for bi, t in b.calls(lambda c: c.endswith("DirSection::write_to_file"))]
+    patch = [(bi, (CalleeView(t["callee"]).short or "").split("::")[-1]) for bi, t in b.calls(lambda c: any((c.short or "").endswith(p_) for p_ in PATCHERS))]
+    ctx.floor(R, "write_to_file calls in generate_dump", len(flushes), 19)
+    ctx.floor(R, "in-place image writes in generate_dump", len(patch), 1)
+    for k, (bi, nm) in enumerate(patch):
+        late = [f for f in flushes if reachable_after(b, f, {bi}) is not None]
+        ctx.check(not late, R, ("generate_dump", nm, k + 1), b.where(bi), "%s happens before the first flush" % nm,
+                  "%s rewrites image bytes after a flush (%s): write_to_file only appends what lies behind the watermark, the destination keeps the old bytes" % (nm, b.where(late[0]) if late else ""))
+    n = 0
+    for name, a in ctx.prog.adts.items():
+        if name.endswith("minidump_writer::MinidumpWriter") or name.endswith("ptrace_dumper::PtraceDumper") or name.endswith("dir_section::DirSection"):
+            for v in a.get("variants", []):
+                for f in v.get("fields", []):
+                    n += 1
+                    bad = "MemoryWriter<" in f["ty"] or "MemoryArrayWriter<" in f["ty"]
+                    excused = name.endswith("DirSection") and f["name"] == "section"
+                    ctx.check(not bad or excused, R, ("state", name.split("::")[-1], f["name"]), None,
+                              "%s.%s: %s%s" % (name.split("::")[-1], f["name"], f["ty"][:60], " (the directory: written to image and destination together)" if excused else ""),
+                              "%s.%s keeps an in-place writer (%s) alive across flushes: a later step can rewrite flushed bytes" % (name.split("::")[-1], f["name"], f["ty"]), nontrivial=bad)
+    ctx.floor(R, "fields of the long-lived writer state", n, 15)
+    # section writers get no handle either: no parameter of a function called from generate_dump after the first flush is a MemoryWriter
+    for bi, t in b.calls(lambda c: c.local):
+        cv = CalleeView(t["callee"])
+        tgt = cv.target or cv.short
+        if tgt not in ctx.prog.by_short or not any(reachable_after(b, f, {bi}) is not None for f in flushes):
+            continue
+        hb = ctx.prog.by_short[tgt][0]
+        tys = [hb.locals[i]["ty"] for i in range(1, hb.argc + 1)]
+        bad = [ty for ty in tys if ("MemoryWriter<" in ty or "MemoryArrayWriter<" in ty) and not tgt.endswith(PATCHERS)]
+        if tgt.endswith(PATCHERS):
+            continue
+        ctx.check(not bad, R, ("handle-passed", tgt.split("::")[-2] + "::" + tgt.split("::")[-1]), b.where(bi), "%s receives no in-place writer handle" % tgt.split("::")[-1],
+                  "%s is handed an in-place writer (%s) after a flush" % (tgt.split("::")[-1], bad), nontrivial=bool(bad))
+
+
 def rule_append_flush(ctx, R="C09/append-flush"):
     b = ctx.body(R, DS + "::write_to_file")
     if b is None:
@@ -411,6 +459,7 @@ def rule_dest_errors_abort(ctx, R="C09/dest-errors-abort"):
 
 
 def run(ctx):
+    rule_no_write_below_watermark(ctx)
     rule_seek_targets(ctx)
     rule_save_restore(ctx)
     rule_append_flush(ctx)
